@@ -59,22 +59,23 @@ def r14_1(ctx):
             ctx.check(ok, "scaled %s: %s divided by the constraint's scale" % (kind, nm), detail="side not divided by scale (feasible set changes)",
                       expected="%s = mc.%s/%s" % (nm, nm, sv), found="; ".join(ast.unparse(x) for x in d), fi=f, node=(d[0] if d else b), sample={"kind": kind, "part": nm})
         cs = asg.get(cv, [])
-        forms = sorted(Norm(None).key(x.value) for x in cs)
+        cases = {}
+
+        def flat(node, conds):
+            if isinstance(node, ast.IfExp):
+                flat(node.body, conds + ((ast.unparse(node.test), True),))
+                flat(node.orelse, conds + ((ast.unparse(node.test), False),))
+            else:
+                cases[conds] = Norm(None).key(node)
+        for x in cs:
+            gs = tuple((ast.unparse(t), p) for t, p in sc.guards(x) if ast.unparse(t) in ("lb_inf", "ub_inf"))
+            flat(x.value, gs)
+        forms = sorted(cases.values())
         if kind == "inequality":
-            want = sorted([Norm(None).key(ast.parse(t, mode="eval").body) for t in ("canon <= ub", "lb <= canon", "lb <= (canon <= ub)")])
-            ctx.check(forms == want, "scaled inequality keeps its sense", detail="sense or sides of the rebuilt inequality", expected=want, found=forms, fi=f, node=b)
-            # which form under which condition
-            ok = True
-            for x in cs:
-                gs = [(ast.unparse(t), p) for t, p in sc.guards(x) if ast.unparse(t) in ("lb_inf", "ub_inf")]
-                k = Norm(None).key(x.value)
-                if k == want[0] or "canon <= ub" in ast.unparse(x.value) and "lb" not in ast.unparse(x.value):
-                    ok = ok and gs == [("lb_inf", True)]
-                elif "lb <= canon" == ast.unparse(x.value):
-                    ok = ok and gs == [("lb_inf", False), ("ub_inf", True)]
-                else:
-                    ok = ok and gs == [("lb_inf", False), ("ub_inf", False)]
-            ctx.check(ok, "one-sided form only when that side is infinite", detail="finite bound dropped", expected="lb_inf -> canon<=ub; ub_inf -> lb<=canon; else both", found="", fi=f, node=b)
+            K = lambda t: Norm(None).key(ast.parse(t, mode="eval").body)
+            want_cases = {(("lb_inf", True),): K("canon <= ub"), (("lb_inf", False), ("ub_inf", True)): K("lb <= canon"), (("lb_inf", False), ("ub_inf", False)): K("lb <= (canon <= ub)")}
+            ctx.check(sorted(cases.values()) == sorted(want_cases.values()), "scaled inequality keeps its sense", detail="sense or sides of the rebuilt inequality", expected=sorted(want_cases.values()), found=forms, fi=f, node=b)
+            ctx.check(cases == want_cases, "one-sided form only when that side is infinite", detail="finite bound dropped", expected="lb_inf -> canon<=ub; ub_inf -> lb<=canon; else both", found=str(cases)[:200], fi=f, node=b)
             for nm, sign in (("lb_inf", "-np.inf"), ("ub_inf", "np.inf")):
                 d = [x for x in asg.get(nm, []) if not (isinstance(x.value, ast.Constant))]
                 ok = len(d) == 1 and is_call_to(d[0].value, "all", "np")
